@@ -724,6 +724,12 @@ def solve_matrix(matrix, mode=EXACT):
         if g > 1:
             elim_gcd_factoid = [i // g for i in df.factoid]
             df = dfactoid(Factoid(elim_gcd_factoid), GCDCheck(df.deriv))
+        # A row without variables is decided by its constant, as for
+        # derived factoids.
+        if df.factoid.is_false_factoid():
+            return "UNSAT", Contr(df.deriv)
+        elif df.factoid.is_true_factoid():
+            continue
         insert_db(db, df)
     r = solve(EXACT, db, len(matrix[0]))
     if isinstance(r, Satisfiable):
